@@ -150,6 +150,17 @@ func (x *XmlNode) leafContent(m meta.Leafable) string {
 	if m.Type().Format().Single() == val.FmtString {
 		return string(x.Content)
 	}
+	if m.Type().Format().Single() == val.FmtUnion {
+		// white space belongs to the value when the text ends up with a string member
+		// of the union and is insignificant when another member takes the trimmed text
+		raw, trimmed := string(x.Content), x.ContentTrim()
+		if raw != trimmed {
+			if v, err := node.NewValue(m.Type(), trimmed); err != nil || v == nil || v.Format().Single() == val.FmtString {
+				return raw
+			}
+		}
+		return trimmed
+	}
 	return x.ContentTrim()
 }
 
